@@ -124,6 +124,26 @@ def width(ctx, fillkind):
     return ctx.done(ok, ctx.observe(r[1]))
 
 
+def width_unsigned(ctx, ukind, order):
+    """decided by its real-stack replay (dtype widths are not modelled): labels stored as unsigned integers, where differences
+    wrap instead of going negative; data still moves with its labels"""
+    np = ctx.np
+    labs = {'unsorted': [3, 1, 2], 'dec': [3, 2, 1], 'inc': [1, 2, 3], 'unsorted2': [2, 3, 1]}[order]
+    a = ctx.da.DimArray(np.array([[10.0 * l, 10.0 * l + 1] for l in labs]), axes=[('x', np.array(labs, dtype=ukind)), ('y', ['a', 'b'])])
+    oks = []
+    obs = []
+    for new, kw in (([1, 2, 3, 4], {}), ([2, 3, 1], {'raise_error': True}), (labs, {}), ([1, 3], {'method': 'left'}), ([4, 1], {})):
+        r = ctx.call(lambda: a.reindex_axis(np.array(new, dtype=ukind), axis='x', **kw))
+        if r[0] != 'ok':
+            return ctx.done(False, r[1])
+        got = r[1].values.tolist()
+        obs.append(ctx.observe(r[1]))
+        oks.append(r[1].axes['x'].values.tolist() == list(new) and r[1].dims == ('x', 'y') and r[1].axes['y'].values.tolist() == ['a', 'b'])
+        for l, row in zip(new, got):
+            oks.append((row == [10.0 * l, 10.0 * l + 1]) if l in labs else (row[0] != row[0] and row[1] != row[1]))
+    return ctx.done(all(oks), obs)
+
+
 def reindex_like(ctx, lk0, lk1, k0=2, k1=2, via='dimarray'):
     """reindex_like applies the same rule to every dimension shared with the template"""
     a, ref, dims, labels = build(ctx, [2, 2], [lk0, lk1])
@@ -180,6 +200,9 @@ def templates():
     add('twice-2d', 'reindex', cost=3, shape=[2, 3], pos=1, lkind='i', k=2, twice=True)
     for fk in ('float32', 'float16'):
         add('width-%s-fill' % fk, 'width', cost=0.1, fillkind=fk)
+    for uk in ('uint8', 'uint16', 'uint64'):
+        for order in ('unsorted', 'unsorted2', 'dec', 'inc'):
+            add('width-unsigned-%s-%s' % (uk, order), 'width_unsigned', cost=0.1, ukind=uk, order=order)
     add('raise-error', 'reindex', cost=2, shape=[3], pos=0, lkind='i', k=2, raise_error=True)
     add('raise-error-U', 'reindex', cost=2, shape=[2], pos=0, lkind='U', k=2, raise_error=True)
     for method in ('left', 'right'):
